@@ -56,6 +56,12 @@ fn main() {
         }
         Some("replay") => std::process::exit(check::replay_main(&args[1], &exe())),
         Some("selftest") => std::process::exit(selftest::selftest_main(&exe(), args.iter().any(|a| a == "thorough"))),
+        Some("plan") if args.len() > 1 => {
+            // `vcheck plan Cxx`: one line per instance of the property's plan (scenario, cfg, quick bound, thorough bound)
+            for i in props::plan(&args[1]) {
+                println!("{} {} {} {}", i.scenario, i.cfg.to_string(), i.quick.map(|b| b.to_string()).unwrap_or("-".into()), i.thorough);
+            }
+        }
         Some("plan") => {
             for p in props::ALL_PROPS {
                 let pl = props::plan(p);
